@@ -891,10 +891,16 @@ class Interp:
         views of the same storage become unknown-valued"""
         # writing through a basic view v = b[idx] (out=v, v += ...) updates exactly that region of b
         view_of = old.term.args[0] if (isinstance(old.term, Term) and old.term.op == "getitem" and len(old.term.args) == 2) else None
+        view_idx = old.term.args[1] if view_of is not None else getattr(old, "view", None)
+        if view_idx is not None and getattr(new, "view", None) is None and new is not old:
+            new.view = view_idx  # the value stays a view of the same region after it was written through
 
         def other(x):
             if view_of is not None and x.term == view_of:
                 return x.replace(term=T("store", x.term, old.term.args[1], new.term), has_const=False, const_=None, items=None)
+            if view_of is None and view_idx is not None and getattr(x, "view", None) is None and x.shape is not None and old.shape is not None and len(x.shape) == len(old.shape):
+                # a second write through the same view: the region of the base it covers is overwritten again
+                return x.replace(term=T("store", x.term, view_idx, new.term), has_const=False, const_=None, items=None)
             return x.replace(term=T("stale", x.term, new.term))
 
         for env in st.frames:
